@@ -43,14 +43,17 @@ def generate(ctx):
         # k * 1.3 / 1.3 is not always exactly k in floating point (6, 11, 12, 14 ...): with a zero tolerance such a delay is
         # legitimately read as off the grid, so the longer delays at that step time always carry a tolerance
         tol = 1e-3 if (K > 5 and dt == 1.3) else rng.choice([0.0, 1e-3])
+        substep = rng.random() < 0.12
+        if substep:
+            K, mode = 0, "mixed"
         yield {"conn": conn, "syn": syn, "dt": dt, "K": K, "tol": tol, "mode": mode,
                "interp": rng.choice(["previous", "nearest"]), "B": rng.randint(1, 3), "bias": rng.random() < 0.4,
                "dtype": rng.choice(["float64", "float64", "float32"]), "p": rng.choice([0.2, 0.5, 0.8]),
                "seed": rng.randrange(1 << 30), "events": events,
                # reach the step time through the dt setter after construction (retimed connection) instead of the constructor
-               "retimed_from": rng.choice([None, None, 1.0, 0.5, 2.0]), "inplace": rng.random() < 0.5,
+               "retimed_from": None if substep else rng.choice([None, None, 1.0, 0.5, 2.0]), "inplace": rng.random() < 0.5,
                # reach the maximum delay through the synapse's delay setter (built with a smaller / larger one)
-               "redelayed_from": rng.choice([None, None, 0, 1, 2 * K])}
+               "redelayed_from": None if substep else rng.choice([None, None, 0, 1, 2 * K]), "substep": substep}
 
 
 def _synctor(desc):
@@ -67,7 +70,7 @@ def _synctor(desc):
 
 def _build(desc, delayed):
     c, dt, B = desc["conn"], desc["dt"], desc["B"]
-    delay = desc["K"] * dt if delayed else None
+    delay = (desc["K"] + (0.5 if desc.get("substep") else 0.0)) * dt if delayed else None
     kw = dict(synapse=_synctor(desc), bias=desc["bias"], delay=delay, batch_size=B)
     if c == "dense":
         m = LinearDense((3,), (2,), dt, **kw)
@@ -106,7 +109,12 @@ def _np(t):
 def _draw_delays(desc, shape, g, mask=None):
     """integer part k, fraction f (per synapse) and the delay tensor (k + f) * dt"""
     K, dt, mode = desc["K"], desc["dt"], desc["mode"]
-    if mode == "zero":
+    if desc.get("substep"):
+        # maximum delay of half a step: two stored observations, every non-zero delay lies between them
+        k = np.zeros(shape, dtype=np.int64)
+        frs = np.array([0.0, 0.25]) if desc["interp"] == "nearest" else np.array([0.0, 0.25, 0.5])
+        f = frs[g.integers(0, len(frs), size=shape)]
+    elif mode == "zero":
         k = np.zeros(shape, dtype=np.int64)
         f = np.zeros(shape)
     elif mode == "homogeneous":
